@@ -98,7 +98,7 @@ def r1_r4(prog, rep):
     for s in walk_own(fg1.node):
         if isinstance(s, ast.Assign) and is_self_attr(s.targets[0], "pressure") and isinstance(s.value, ast.Call):
             c = s.value
-            t = "".join(fg1.module.text(c.func).split())
+            t = fg1.module.code(c.func)
             ok = t.endswith(".pressure") and "regions[self.equilibriumRegion.name]" in t and len(c.args) == 1 and is_self_attr(c.args[0], "psixy")
     rep.ob("R1", "pressure == (this region's pressure profile)(psixy)", ok, fg1.site(), "", key="R1/pressure")
     # the direction test uses Bp . (position(y+1) - position(y-1)) at one point of the grid
